@@ -2246,7 +2246,7 @@ def classify(c, io, drv):
     names = [el["st"] for el in c["chain"]]
     if "err" in io:
         if io["err"] == "RuntimeError" and "attack" in names and c["mode"] == "drain" and \
-                "StopIteration" in io.get("errmsg", "") and io.get("outs") == 0 and \
+                "StopIteration" in io.get("errmsg", "") and \
                 io.get("partial", [1] * len(names))[names.index("attack")] == 0:
             return "attack:empty-sustain:err:RuntimeError"      # the stream in front of attack delivered nothing
         if io.get("aux_tripped"):
